@@ -9,6 +9,7 @@ Strings are lower-case hex (`-` = empty string).
   <decls>  `|` separated, `.` = empty file;
            b~<name>~<deps>          bundle
            f~<name>~<files>~<incs>  file_set with explicit files and includes
+           d~<name>~<output>        download (a rule with one explicit output)
            s~<dirs>                 sub_builds
            x~<kind>~<n>             n statements jsonx rejects (kind: how they are malformed)
            lists inside a declaration are `+` separated, `.` = empty
@@ -48,6 +49,10 @@ def parseDecl (w : String) : Option Decl :=
   | ["s", ds] => do
     let ds ← parseList "+" ds
     pure (.sub ds)
+  | ["d", n, o] => do
+    let n ← parseS n
+    let o ← parseS o
+    pure (.download n o)
   | ["x", _, n] => n.toNat?.map .garbage
   | _ => none
 
